@@ -70,6 +70,16 @@ pub fn datarates(r: RegionId) -> [Option<DrDef>; 16] {
     }
 }
 
+/// Data rates an application may select for uplinks (LoRa rates the stack under test implements).
+pub fn uplink_drs(r: RegionId) -> Vec<u8> {
+    match r {
+        RegionId::EU868 | RegionId::IN865 => (0..=5).collect(),
+        RegionId::EU433 | RegionId::AS923_1 | RegionId::AS923_2 | RegionId::AS923_3 | RegionId::AS923_4 => (0..=6).collect(),
+        RegionId::US915 => (0..=4).collect(),
+        RegionId::AU915 => (0..=6).collect(),
+    }
+}
+
 pub fn dr_def(r: RegionId, dr: u8) -> Option<DrDef> {
     datarates(r).get(dr as usize).copied().flatten()
 }
